@@ -58,7 +58,9 @@ def r1_bit_order(ctx):
             r = s["r"]
             if r["k"] == "Bin" and r["op"] in ("Shr", "Shl", "ShrUnchecked", "ShlUnchecked"):
                 base = rem8_base(b, r["o"][1])
-                if base is not None:
+                v_ = op_const(r["o"][0])
+                # a selector shifts ONE bit; `0xff >> (n % 8)` / `0xff << k` are range masks (tail clearing), a variable operand is a byte being moved
+                if base is not None and v_ is not None and int(v_) > 0 and int(v_) & (int(v_) - 1) == 0:
                     sels.append((i, j, s, base))
         if not sels:
             continue
@@ -83,7 +85,7 @@ def r1_bit_order(ctx):
             same = any(root_vars(b, d[3]) & rv for d in divs)
             ctx.check(same or not divs and False, rule, [b.id, "byte-index", s["l"] - b.lines[0]], "byte index is x / 8 of the same x",
                       "%s uses bit `x %% 8` without indexing the mask at `x / 8` of the same x" % b.id, loc)
-    ctx.floor(rule, n, 7, "bit selectors in install/download/size")
+    ctx.floor(rule, n, 3, "bit selectors in install/download/size (the three InstallTag accessors at least)")
 
 
 def r2_mask_len(ctx):
@@ -165,6 +167,8 @@ def r3_r4_remove_file(ctx):
         nx = nexts[0]
         adapters = [a for a in ("Skip<", "Take<", "Filter<", "StepBy<") if a in nx.full]
         assigns = {i for i, j, s in b.stmts() if place_fields(s["p"])[-1:] == ["bit_mask"]}
+        # an in-place edit (`let mask = &mut tag.bit_mask; mask[i] = ..; mask.resize(..)`) rebuilds the mask just as well as an assignment
+        assigns |= {i for i, j, s in b.stmts() if s["r"]["k"] == "Ref" and s["r"].get("mut") and place_fields(s["r"]["p"])[-1:] == ["bit_mask"]}
         ok = bool(assigns) and not adapters and all(every_iteration(b, nx, a) or True for a in assigns) and \
             (some_edge(b, nx) is not None and nx.bb not in b.reachable([some_edge(b, nx)], avoid=assigns))
         ctx.check(ok, "C19.R3", [b.id, "all-tags"], "every tag gets a rebuilt mask on every iteration",
@@ -197,14 +201,27 @@ def r3_r4_remove_file(ctx):
                                 # an UPPER bound on the index: `x < bound` with the read on the true edge, or `x >= bound` with it on the false edge
                                 upper = (opn in ("Lt", "Le") and on_t and not on_f) or (opn in ("Gt", "Ge") and on_f and not on_t)
                                 if upper:
-                                    guards.append((i, s, r["o"][1 - k]))
-            for (gi, gs, bound) in guards:
+                                    edge_t = tt if (on_t and not on_f) else ft
+                                    fail_t = ft if edge_t == tt else tt
+                                    # a guard whose failing edge leaves without touching any mask rejects the call; one whose failing edge carries on
+                                    # with the rebuild silently treats the bit as clear
+                                    rejects = not (b.reachable([fail_t]) & assigns)
+                                    guards.append((i, s, r["o"][1 - k], rejects))
+            judged = []
+            for (gi, gs, bound, dom_) in guards:
                 bl = op_local(bound)
                 if bl is None:
                     continue
                 sl = Slice(b, [bl], transparent=True)
-                own = any(re.search(r"\bVec::<T, A>::len$|slice::<impl \[T\]>::len$", c.name) and "bit_mask" in recv_fields(b, c) for c in sl.calls)
-                ctx.check(own, "C19.R4", [b.id, "guard", gs["l"] - b.lines[0]], "bound derives from the read mask's own length",
+                own = any(re.search(r"\bVec::<T, A>::len$|slice::<impl \[T\]>::len$", c.name) and
+                          ("bit_mask" in recv_fields(b, c) or (op_local(c.args[0]) is not None and
+                                                               any("bit_mask" in f for f in Slice(b, [op_local(c.args[0])], transparent=True).fields)))
+                          for c in sl.calls)
+                judged.append((own, gs, sl, dom_))
+            # a guard that REJECTS the call (its failing edge returns before any mask is touched, e.g. `file_index >= entries.len()`) is not
+            # a bound on what is read from the old mask
+            for (own, gs, sl, rejects_) in judged:
+                ctx.check(own or rejects_, "C19.R4", [b.id, "guard", gs["l"] - b.lines[0]], "the read is bounded by the read mask's own length",
                           "%s::remove_file guards a read of the OLD tag mask with a bound that does not derive from that mask's length (it derives from %s): when the "
                           "file count drops across a byte boundary the bit of the last file lives in the byte that disappears, fails the bound and is silently cleared" %
                           (ty, sorted({c.name.split("::")[-1] for c in sl.calls})[:4]), "%s:%d" % (b.file, gs["l"]),
@@ -399,7 +416,50 @@ def r7_combination_accumulates(ctx):
     ctx.info("C19.R7: %d bodies combine masks with intersect/union" % n)
 
 
+def r8_effective_priority_only(ctx):
+    """who-may-read: the stored priority of a download entry is relative to the header's base priority (V3). Every query must go through the one
+    accessor that applies the base; the raw field is for that accessor, the (de)serialisers and the builders' setters only."""
+    rule = "C19.R8"
+    ctx.rule(rule, "the raw `priority` field of a download entry is read only by the base-applying accessor, the (de)serialisers and builders; queries use the accessor")
+    ALLOWED = re.compile(r"^(effective_priority|read_options|write_options|parse\w*|build\w*|new\w*|with_\w+|set_\w+|fmt|clone|eq|hash|validate\w*|from_\w+|to_\w+|default)$")
+    accessor = None
+    n_reads = 0
+    for b in ctx.prog.bodies.values():
+        if b.krate != "cascette_formats" or not re.search(r"src/download/", b.file or "") or b.expn:
+            continue
+        root = ctx.prog.bodies.get(b.root) if b.root else b
+        item = (root.item if root is not None else b.item) or ""
+        reads = []
+        for (i, j, st) in b.stmts():
+            if i not in b.live_blocks():
+                continue
+            r = st["r"]
+            places = [o["p"] for o in r.get("o", []) if o["k"] in ("cp", "mv")] + ([r["p"]] if "p" in r and r["k"] in ("Ref", "Discr") else [])
+            for p_ in places:
+                if any(isinstance(e, dict) and e.get("n") == "priority" and str(e.get("a", "")).endswith("DownloadFileEntry") for e in p_[1:]):
+                    reads.append(st.get("l", 0))
+        for bb_, blk in enumerate(b.blocks):
+            t = blk["t"]
+            ops = ([t["d"]] if t["k"] == "Switch" else []) + (t.get("a", []) if t["k"] == "Call" else [])
+            for o in ops:
+                if o["k"] in ("cp", "mv") and any(isinstance(e, dict) and e.get("n") == "priority" and str(e.get("a", "")).endswith("DownloadFileEntry") for e in o["p"][1:]):
+                    reads.append(t.get("l", 0))
+        if not reads:
+            continue
+        n_reads += 1
+        ctx.saw(b)
+        if item == "effective_priority":
+            accessor = b
+        ctx.check(bool(ALLOWED.match(item)), rule, [b.id, "raw-priority-read"], "%s may read the stored priority" % item,
+                  "%s reads the stored `priority` of a download entry directly (line %s): for a version-3 manifest the stored value is relative to the header's "
+                  "base priority, and every other query applies it through effective_priority() - this one classifies, filters or sums files under the "
+                  "wrong priority whenever base_priority != 0" % (ctx._stable(b.id), reads[0]), "%s:%s" % (b.file, reads[0]),
+                  sample={"reader": b.id, "lines": reads[:4]})
+    ctx.anchor(rule, accessor, "DownloadFileEntry::effective_priority (the accessor that applies the base priority)")
+
+
 def run(ctx):
+    r8_effective_priority_only(ctx)
     r6_selector_application(ctx)
     r7_combination_accumulates(ctx)
     r1_bit_order(ctx)
